@@ -12,6 +12,7 @@ import (
 	"strconv"
 	"strings"
 	"sync"
+	"sync/atomic"
 	"time"
 
 	vegeta "github.com/tsenart/vegeta/v12/lib"
@@ -32,6 +33,8 @@ type caseC05 struct {
 	FailEvery uint64 `json:"fail_every"`
 	FailKind  string `json:"fail_kind"`  // "error" | "timeout_error" | "client_timeout"
 	TimeoutNs int64  `json:"timeout_ns"` // http.Client.Timeout (0 = none)
+	BadEvery  uint64 `json:"bad_every"`  // every n-th target cannot be built into a request (0 = never)
+	DryAfter  uint64 `json:"dry_after"`  // the targeter reports ErrNoTargets after this many draws (0 = never)
 }
 
 // timeoutErr is a transport error whose Timeout() is true (dial / TLS / header timeouts look like this).
@@ -114,7 +117,31 @@ func runC05(c *run.Ctx, s *kit.Summary) {
 		atk := vegeta.NewAttacker(vegeta.Workers(cs.Workers), vegeta.MaxWorkers(cs.Max), vegeta.Client(client),
 			vegeta.Timeout(time.Duration(cs.TimeoutNs)))
 		s.Count("fail_kind=" + cs.FailKind)
-		tr := vegeta.NewStaticTargeter(vegeta.Target{Method: "GET", URL: "http://verif.invalid/"})
+		// some hits return before the transport: every BadEvery-th target cannot be turned into a request
+		// (bad method / URL), and the targeter may run dry near the end (which also stops the attack)
+		if r.Chance(0.5) {
+			cs.BadEvery = uint64(2 + r.Pick(7))
+		}
+		if r.Chance(0.3) {
+			cs.DryAfter = cs.Hits - uint64(r.Pick(50))
+		}
+		var drawn uint64
+		tr := vegeta.Targeter(func(t *vegeta.Target) error {
+			n := atomic.AddUint64(&drawn, 1)
+			if cs.DryAfter > 0 && n > cs.DryAfter {
+				return vegeta.ErrNoTargets
+			}
+			t.Method, t.URL = "GET", "http://verif.invalid/"
+			if cs.BadEvery > 0 && n%cs.BadEvery == 0 {
+				if n%2 == 0 {
+					t.URL = "http://[::1" // url.Parse fails
+				} else {
+					t.Method = "BAD METHOD" // http.NewRequest rejects it
+				}
+			}
+			return nil
+		})
+		s.Count(fmt.Sprintf("early_return:bad_every=%v,dry=%v", cs.BadEvery > 0, cs.DryAfter > 0))
 		t0 := time.Now()
 		var results []*vegeta.Result
 		for res := range atk.Attack(tr, limitPacer{cs.Hits}, 0, "c05") {
